@@ -18,6 +18,7 @@ UNITS_OF = {
     "C06": ["fixed_vector"], "C07": ["fixed_vector"],
     "C17": ["string"],
     "C08": ["format"],
+    "C18": ["owner"],
 }
 
 
